@@ -6,6 +6,7 @@ import (
 	"math/rand"
 	"sort"
 	"strings"
+	"sync/atomic"
 	"time"
 
 	"github.com/anyproto/any-sync/app/ocache"
@@ -175,6 +176,7 @@ type execResult struct {
 	callbacks   int // released gates that are callbacks inside the cache (load/close/try)
 	diverged    bool
 	divergeNote string
+	slowClose   bool
 	settleNotes []string
 	aborted     string // "", "panic", "stuck"
 	findings    []finding
@@ -318,7 +320,13 @@ func execute(cd caseDef, prefix []string, choose func(opts []string) int) *execR
 				break
 			}
 			// nothing left to release, yet some operation has not returned
-			if stuckConfirmed(s, m, recs) {
+			stuck, abandon := stuckConfirmed(s, m, recs)
+			if abandon {
+				res.aborted = "abandoned"
+				break
+			}
+			if stuck {
+				wedges.Add(1)
 				res.aborted = "stuck"
 				res.findings = append(res.findings, stuckFindings(s, m, recs, cd, strings.Join(sig, " "))...)
 				break
@@ -368,11 +376,26 @@ func execute(cd caseDef, prefix []string, choose func(opts []string) int) *execR
 		o := m.newOp("Close", "", nil, "final", 0)
 		done := make(chan struct{})
 		go func() { defer close(done); m.do(c, o) }()
+		limit := 40 * time.Second
+		if wedges.Load() >= wedgeBudget {
+			limit = 600 * time.Millisecond
+		}
 		select {
 		case <-done:
-		case <-time.After(40 * time.Second):
+			if o.Wall > 8*time.Second {
+				wedges.Add(1)
+				res.slowClose = true
+			}
+		case <-time.After(limit):
+			if limit < time.Second {
+				// circuit breaker (see wedgeBudget): do not wait for Close's
+				// internal timeout again; this execution yields no verdict
+				res.aborted = "abandoned"
+				return res
+			}
 			// far beyond Close's internal 10 s closeTimeout. A verdict only if
 			// the dump shows the call parked directly in repository code.
+			wedges.Add(1)
 			res.aborted = "stuck"
 			d := gates.Dump()
 			frame := ""
@@ -432,30 +455,50 @@ func opLines(m *mon) []string {
 // runtime waiting state, and this stays so. Nothing the harness owns can wake
 // them; the only timer inside ocache is Close's 10 s closeTimeout, so when a
 // Close is among the unfinished operations the observation window exceeds it.
-func stuckConfirmed(s *gates.Sched, m *mon, recs []*opRec) bool {
+//
+// wedgeBudget: a regression that wedges entries makes every affected
+// execution wait (2 s here, or Close's 10 s timeout). After this many such
+// executions in one worker process the violation is on record; later ones use
+// a short window or are abandoned without a verdict so that the run stays
+// bounded.
+const wedgeBudget = 3
+
+var wedges atomic.Int32
+
+func stuckConfirmed(s *gates.Sched, m *mon, recs []*opRec) (stuck, abandon bool) {
 	window := 2 * time.Second
+	over := wedges.Load() >= wedgeBudget
+	if over {
+		window = 300 * time.Millisecond
+	}
 	m.mu.Lock()
 	for _, o := range recs {
 		if o.Kind == "Close" && o.Call != 0 && o.Ret == 0 {
 			window = 13 * time.Second
+			if over {
+				abandon = true
+			}
 		}
 	}
 	m.mu.Unlock()
+	if abandon {
+		return false, true
+	}
 	deadline := time.Now().Add(window)
 	for time.Now().Before(deadline) {
 		time.Sleep(20 * time.Millisecond)
 		if len(s.Parked()) > 0 || s.AllDone() {
-			return false
+			return false, false
 		}
 		m.mu.Lock()
 		np := len(m.panics)
 		m.mu.Unlock()
 		if np > 0 {
-			return false
+			return false, false
 		}
 	}
 	b, _, exact := s.Settle(settleQuiet, time.Second)
-	return exact && len(b) > 0 && len(s.Parked()) == 0
+	return exact && len(b) > 0 && len(s.Parked()) == 0, false
 }
 
 // stuckCause names what the monitor saw before the operations got stuck.
@@ -583,6 +626,14 @@ func explore(c *lib.Case, cd caseDef, dfsBound, rndBound int) {
 			return false
 		case "stuck":
 			c.Count("sched.executions_stuck", 1)
+			stop = true
+		case "abandoned":
+			c.Count("sched.executions_abandoned_after_wedge_budget", 1)
+			return true
+		}
+		if r.slowClose {
+			c.Count("sched.final_close_hit_closeTimeout", 1)
+			stop = true
 		}
 		if r.stats.dInconclusive {
 			c.Inconclusive("a cache Close() took longer than 8 s; left-open check skipped: " + desc)
@@ -599,7 +650,7 @@ func explore(c *lib.Case, cd caseDef, dfsBound, rndBound int) {
 			f.Detail["schedule"] = r.sig
 			c.Violation(f.Key, f.What, f.Detail)
 		}
-		return false
+		return stop
 	}
 
 	for runs < dfsBound {
